@@ -7,6 +7,7 @@ use crate::{Script, ScriptBit, Transaction};
 use errors::InterpreterError;
 //use num_bigint::{BigInt, Sign};
 use serde::{Deserialize, Serialize};
+use std::io::Write;
 //use stack_trait::ScriptStack;
 
 mod errors;
@@ -50,8 +51,10 @@ impl Interpreter {
     pub(crate) fn run_impl(&mut self) -> Result<(), InterpreterError> {
         while let Some(state) = self.next_impl() {
             let state = state?;
-            println!("=============NEXT==============");
-            println!("{}", state);
+            // Debug trace only: a failing stdout (closed pipe, full disk) must not abort the run
+            let mut out = std::io::stdout();
+            let _ = writeln!(out, "=============NEXT==============");
+            let _ = writeln!(out, "{}", state);
         }
 
         Ok(())
